@@ -203,6 +203,7 @@ type c13History struct {
 	// renew / release
 	RenewStart, RenewRet int
 	RenewAck             int
+	RenewNak             int // serial of the NAK that ended the renewal (−1: none)
 	RenewErr             error
 	ReleaseErr           error
 	V6Adv, V6Reply       int
@@ -231,7 +232,7 @@ func c13Dest6(cfg int) *net.UDPAddr {
 func serverIP(i int) net.IP { return net.IP{10, 77, byte(i), 1} }
 
 func c13Run(t *testing.T, c c13Case) *c13History {
-	h := &c13History{LeaseOffer: -1, LeaseAck: -1, NakOffer: -1, NakNak: -1, RenewAck: -1, V6Adv: -1, V6Reply: -1}
+	h := &c13History{LeaseOffer: -1, LeaseAck: -1, NakOffer: -1, NakNak: -1, RenewAck: -1, RenewNak: -1, V6Adv: -1, V6Reply: -1}
 	tk := time.Millisecond
 	ticks := func(d time.Duration) int { return int(d / tk) }
 	h.Problem = inBubble(t, func() {
@@ -364,6 +365,10 @@ func c13Run(t *testing.T, c c13Case) *c13History {
 				if err == nil {
 					h.RenewAck = v4Serial(l2.ACK)
 					lease = l2
+				}
+				var rnak *nclient4.ErrNak
+				if errors.As(err, &rnak) {
+					h.RenewNak = v4Serial(rnak.Nak)
 				}
 				time.Sleep(time.Duration(4*c.T+2) * tk)
 				synctest.Wait()
@@ -541,7 +546,7 @@ func (h *c13History) ambiguous() bool {
 	if h.RenewRet > 0 {
 		boundary[h.RenewRet] = true
 	}
-	ends := map[int]bool{h.LeaseAck: true, h.NakNak: true, h.V6Reply: true, h.V6Adv: true, h.RenewAck: true}
+	ends := map[int]bool{h.LeaseAck: true, h.NakNak: true, h.V6Reply: true, h.V6Adv: true, h.RenewAck: true, h.RenewNak: true}
 	delete(ends, -1)
 	seen := map[int]bool{}
 	for _, d := range h.Dels {
@@ -888,7 +893,7 @@ var c13 = newChk("C13", "exchange-model",
 		}
 		ignored := 0
 		for _, d := range h.Dels {
-			if d.Serial != h.LeaseOffer && d.Serial != h.LeaseAck && d.Serial != h.NakNak && d.Serial != h.V6Adv && d.Serial != h.V6Reply && d.Serial != h.RenewAck {
+			if d.Serial != h.LeaseOffer && d.Serial != h.LeaseAck && d.Serial != h.NakNak && d.Serial != h.V6Adv && d.Serial != h.V6Reply && d.Serial != h.RenewAck && d.Serial != h.RenewNak {
 				ignored++
 			}
 		}
@@ -915,6 +920,32 @@ func genC13() *rapid.Generator[c13Case] {
 	return rapid.Custom(func(t *rapid.T) c13Case {
 		c := c13Case{V6: rapid.IntRange(0, 2).Draw(t, "v6") == 0, Op: rapid.IntRange(0, 1).Draw(t, "op"), T: 16 * rapid.SampledFrom([]int{4, 8}).Draw(t, "T16"), Tries: rapid.IntRange(1, 3).Draw(t, "tries")}
 		c.Cfg = rapid.SampledFrom([]int{0, 0, 0, 1, 2, 3, 4, 5}).Draw(t, "cfg")
+		if !c.V6 && rapid.IntRange(0, 5).Draw(t, "renewal-outcomes") == 0 {
+			// steered: a clean DORA, then every outcome of the renewal — ACK, NAK from the leasing server, NAK or ACK from
+			// another one, silence, an ACK for another address — and the release that follows (of the lease the client
+			// really holds: a refused or failed renewal leaves it as it was)
+			c.Op = 1
+			sid := rapid.SampledFrom([]int{0, 0, 3}).Draw(t, "sid")
+			s0 := []c13Reply{
+				{On: 1, Type: 2, OnlyTx: -1, Delay: 1, Yi: []byte{10, 1, 0, 7}, SID: sid},
+				{On: 3, Type: 5, OnlyTx: 0, Delay: 9, Yi: []byte{10, 1, 0, 7}, SID: sid},
+			}
+			var s1 []c13Reply
+			switch rapid.IntRange(0, 5).Draw(t, "renew") {
+			case 0:
+				s0 = append(s0, c13Reply{On: 3, Type: 5, OnlyTx: 1, Delay: 17, Yi: []byte{10, 1, 0, 7}, SID: sid})
+			case 1:
+				s0 = append(s0, c13Reply{On: 3, Type: 6, OnlyTx: 1, Delay: 17, Yi: []byte{0, 0, 0, 0}, SID: sid})
+			case 2:
+				s1 = append(s1, c13Reply{On: 3, Type: 6, OnlyTx: 1, Delay: 17, Yi: []byte{0, 0, 0, 0}})
+			case 3:
+				s1 = append(s1, c13Reply{On: 3, Type: 5, OnlyTx: 1, Delay: 17, Yi: []byte{10, 9, 9, 9}})
+			case 4:
+				s0 = append(s0, c13Reply{On: 3, Type: 5, OnlyTx: 1, Delay: 17, Yi: []byte{10, 1, 0, 8}, SID: sid})
+			}
+			c.Servers = [][]c13Reply{s0, s1}
+			return c
+		}
 		ns := rapid.IntRange(0, 3).Draw(t, "nservers")
 		used := map[int]bool{}
 		for s := 0; s < ns; s++ {
